@@ -26,7 +26,12 @@ def us(t):
 def clock_scenario(policy, runs, line_level=True, tick=None):
     """runs: list of runs; a run is a list of ('work', s) | ('pause', s) | ('until', 'H:MM')."""
     sched = detsched.Sched(policy, trace_files=('clock.py',) if line_level else (), max_steps=30000)
-    world = rtworld.RtWorld(sched, [], tick=tick or TICK)
+    world = rtworld.RtWorld(sched, [], tick=TICK if tick is None else tick)
+    if tick == 0:
+        # tick length 0: the clock thread spins.  Its steps take 1/512 s each and the script thread runs whenever it can
+        # (it is "not held up"), so that a return still happens at the instant of the tick that caused it
+        sched.spin_cost = 1.0 / 512
+        sched.max_steps = 150000
     events = []
     try:
         from bardolph.lib import i_lib, injection
@@ -45,6 +50,8 @@ def clock_scenario(policy, runs, line_level=True, tick=None):
 
         def script():
             script_tid.append(sched.me().tid)
+            if tick == 0:
+                sched.priority = sched.me().tid
             for run in runs:
                 clock.start()
                 ev(('start', sched.vtime))
@@ -236,6 +243,7 @@ def run(report, replay=None):
         [[('tick', 1.25), ('pause', 1.5), ('pause', 0.0), ('work', 0.5), ('pause', 1.0)]],            # ticks further apart than the
         [[('tick', 2.5), ('pause', 0.5), ('pause', 3.0)], [('pause', 1.0)]],                          # clock's own one-second patience
         [[('tick', 1.5), ('pause', 1.0), ('until', '8:00'), ('pause', 2.0)]],
+        [[('tick', 0.0), ('pause', 0.25), ('work', 0.125), ('pause', 0.5), ('pause', 0.0), ('work', 0.75), ('pause', 0.125)]],   # no sleep between ticks
         [[('other', 0.375, 0.25), ('pause', 1.0), ('pause', 0.5)]],                                   # another script's clock
         [[('other', 0.125, 1.5), ('pause', 0.5), ('work', 0.25), ('pause', 0.5), ('pause', 0.75)]],   # is none of this one's business
     ]
@@ -252,7 +260,8 @@ def run(report, replay=None):
                     report.notes['schedules_cut_by_step_budget'] = report.notes.get('schedules_cut_by_step_budget', 0) + 1
                     continue
                 rid = len(batch)
-                batch.append({'id': rid, 'ev': events, 'slow': bool(task[0] and task[0][0] and task[0][0][0][0] == 'tick' and task[0][0][0][1] > 1.0)})
+                tick_of = task[0][0][0][1] if task[0] and task[0][0] and task[0][0][0][0] == 'tick' else None
+                batch.append({'id': rid, 'ev': events, 'slow': bool(tick_of is not None and tick_of > 1.0), 'spin': tick_of == 0})
                 meta[rid] = (task[0], schedule, mode)
     shards = tlc.split(batch, 16)
     results = tlc.run_sharded('TraceClock', shards, timeout=1500)
